@@ -117,7 +117,15 @@ func c18PropBase(race bool) *pProp {
 				{Name: "Call", Expr: stmt("c")},
 			}}
 			g2.Finish()
-			return []*genParser{newGenParser("pbomb", g, nil), newGenParser("precov", g2, nil)}
+			// a lookahead at a rule and then the rule itself, no action anywhere: the
+			// values are the parser's own slices, one of them produced twice (or,
+			// memoised, once and handed out twice); callers keep what they get
+			g3 := &gen.Grammar{Rules: []*gen.Rule{
+				{Name: "Start", Expr: seq(&gen.Expr{Kind: gen.And, Subs: []*gen.Expr{ref("Line")}}, &gen.Expr{Kind: gen.Label, Name: "l", Subs: []*gen.Expr{ref("Line")}}, opt(lit("\n")), &gen.Expr{Kind: gen.Not, Subs: []*gen.Expr{{Kind: gen.Any}}})},
+				{Name: "Line", Expr: seq(cls(), lit(","), cls(), opt(seq(lit(","), cls())))},
+			}}
+			g3.Finish()
+			return []*genParser{newGenParser("pbomb", g, nil), newGenParser("precov", g2, nil), newGenParser("plook", g3, nil)}
 		},
 		mkReqs: func(r *rng, gp *genParser, p pParams) []*parsersim.Request {
 			var reqs []*parsersim.Request
@@ -145,6 +153,25 @@ func c18PropBase(race bool) *pProp {
 					sc := simrt.SchedConfig{Strategy: simrt.StratRandom, SwitchOneIn: []int{20, 100, 400, 3000}[r.intn(4)]}
 					reqs = append(reqs, &parsersim.Request{ID: fmt.Sprintf("c18-%s-s%d", gp.Name, k), Kind: "c18", Parser: gp.Name,
 						Clients: clients, Sched: sc, Pool: simsync.PoolConfig{}, Seed: r.u64(), StepCap: 400000000})
+				}
+				return reqs
+			}
+			if gp.Name == "plook" {
+				ins := [][]byte{[]byte("ab,b"), []byte("a,bb,a\n"), []byte("b,a"), []byte("aa,ab,ba"), []byte("b,b\n"), []byte("a,"), []byte("ab,ba,a")}
+				for k := 0; k < 6; k++ {
+					var clients [][]parsersim.Call
+					nc := 2 + r.intn(3)
+					for c := 0; c < nc; c++ {
+						var calls []parsersim.Call
+						for j := 1 + r.intn(3); j > 0; j-- {
+							plan := drawPlan(r, false)
+							calls = append(calls, parsersim.Call{Input: ins[r.intn(len(ins))], Opts: parsersim.Opts{Stats: true, Memoize: !r.chance(1, 4)}, Plan: plan})
+						}
+						clients = append(clients, calls)
+					}
+					sc := simrt.SchedConfig{Strategy: simrt.StratRandom, SwitchOneIn: []int{2, 5, 20, 100}[r.intn(4)]}
+					reqs = append(reqs, &parsersim.Request{ID: fmt.Sprintf("c18-%s-s%d", gp.Name, k), Kind: "c18", Parser: gp.Name,
+						Clients: clients, Sched: sc, Pool: simsync.PoolConfig{}, Seed: r.u64(), StepCap: 60000})
 				}
 				return reqs
 			}
